@@ -163,7 +163,9 @@ class PrivateKey(EmbitKey):
 
     def taproot_tweak(self, h=b""):
         """Returns a tweaked private key"""
-        sec = self.sec()
+        # parity of Y is read from the compressed encoding,
+        # also when this key is flagged as uncompressed (sec starts with 0x04)
+        sec = PublicKey(secp256k1.ec_pubkey_create(self._secret)).sec()
         negate = sec[0] != 0x02
         x = sec[1:33]
         tweak = hashes.tagged_hash("TapTweak", x + h)
